@@ -15,7 +15,30 @@ RULE = ("records = calls through Grid.apply_as_grid_ufunc, functions decorated w
 DUMMIES = ["p", "q", "w"]
 
 
+def gen_one_dummy_two_axes(rng, cid):
+    """ill-posed: ONE dummy axis of the signature bound to TWO real axes (of equal length and layout, no padding, so
+    that nothing but the binding rule stands between the request and an answer)"""
+    n = rng.randint(2, 4)
+    positions = ["center"] + rng.sample(FACE, rng.choice([1, 2]))
+    axes = [{"name": f"a{k + 1}", "n": n, "pos": [[p, f"d{3 * k + j + 1}"] for j, p in enumerate(positions)]} for k in range(2)]
+    grid = {"axes": axes, "extra": [], "ctor": gen.rand_ctor(rng, ["a1", "a2"])}
+    p1, p2, po = (rng.choice(positions) for _ in range(3))
+    within = rng.random() < 0.4
+    if within:
+        # within one argument: (p:p1, p:p2) with axis [(a1, a2)]
+        ins, axis = [[["p", p1], ["p", p2]]], [["a1", "a2"]]
+        inputs = [gen.rand_data(rng, [[dict(axes[0]["pos"])[p1], plen(p1, n)], [dict(axes[1]["pos"])[p2], plen(p2, n)]], -9, 9)]
+    else:
+        ins, axis = [[["p", p1]], [["p", p1]]], [["a1"], ["a2"]]
+        inputs = [gen.rand_data(rng, [[dict(axes[k]["pos"])[p1], plen(p1, n)]], -9, 9) for k in range(2)]
+    none4 = {"boundary": NONE, "fill_value": NONE, "boundary_width": NONE, "pad_before_func": NONE}
+    return {"id": cid, "ev": "Ufunc", "grid": grid, "sig": {"ins": ins, "outs": [[["p", po if not within else p2]]]}, "axis": axis,
+            "inputs": inputs, "def": dict(none4), "call": dict(none4), "how": rng.choice(["apply", "decorator", "hints"]), "edit": "arity"}
+
+
 def gen_case(rng, cid):
+    if rng.random() < 0.04:
+        return gen_one_dummy_two_axes(rng, cid)
     while True:
         dimctr = [0]
         naxes = rng.choice([2, 2, 3])
@@ -82,6 +105,10 @@ def gen_case(rng, cid):
         if rng.random() < 0.1 and room and all(all(d in [x for x, _ in o] for d, _, _ in eff) for o in outs):
             # padding after the function: every output must carry the axes the widths name
             (call if how == "apply" or rng.random() < 0.5 else dfn)["pad_before_func"] = S(False)
+        if rng.random() < 0.2:
+            # the grid's real axis names are spelt like the signature's dummy names, bound in any way (crosswise too)
+            pool = rng.sample(DUMMIES, len(DUMMIES))
+            grid["names"] = {a: pool[k] for k, a in enumerate(axn)}
         c = {"id": cid, "ev": "Ufunc", "grid": grid, "sig": {"ins": ins, "outs": outs}, "axis": axis, "inputs": inputs,
              "def": dfn, "call": call, "how": how, "edit": "none"}
         r = rng.random()
